@@ -1,5 +1,5 @@
 /* stubs/c31_ws_env.h — everything ws.c calls outside ws.c, apart from the byte-string
- * evbuffer model (stubs/evbuffer_model.h, include it first with VF_EB_N >= 3):
+ * evbuffer model (stubs/c31_evbuffer3.h, include it first):
  *   EVB[0] = input of the connection's bufferevent, EVB[1] = its output,
  *   EVB[2] = the buffer evbuffer_new() hands out (ws.c holds at most one: incomplete_frames).
  * bufferevent: one static object BEV; lock/refcount are ghost counters (unlock of a lock that
@@ -37,22 +37,12 @@ struct evbuffer *evbuffer_new(void)
 {
 	__CPROVER_assert(!g_inc_live, "evbuffer_new: model holds one extra buffer (ws.c never needs two)");
 	g_inc_live = 1; g_evnew++;
-	g_eb[2].start = g_eb[2].len = g_eb[2].drained = g_eb[2].added = 0; g_eb[2].pullups = 0;
+	vf_start[2] = vf_len[2] = vf_drained[2] = vf_added[2] = 0;
 	return &EVB[2];
 }
 void evbuffer_free(struct evbuffer *b)
 {
 	__CPROVER_assert(b == &EVB[2] && g_inc_live, "evbuffer_free: a live buffer obtained from evbuffer_new, freed once");
 	g_inc_live = 0; g_evfree++;
-}
-int evbuffer_remove_buffer(struct evbuffer *src, struct evbuffer *dst, size_t datlen)
-{
-	struct vf_eb *s = vf_eb_of(src), *d = vf_eb_of(dst);
-	size_t n = datlen < s->len ? datlen : s->len, i_;
-	__CPROVER_assert(src != dst, "evbuffer_remove_buffer: distinct buffers");
-	__CPROVER_assert(d->start + d->len + n <= VF_EB_CAP, "model capacity (unit must size VF_EB_CAP for its inputs)");
-	for (i_ = 0; i_ < VF_EB_CAP; i_++) { if (i_ >= n) break; d->d[d->start + d->len + i_] = s->d[s->start + i_]; }
-	d->len += n; d->added += n; s->start += n; s->len -= n; s->drained += n;
-	return (int)n;
 }
 #endif
